@@ -72,7 +72,7 @@ func runC02(cfg Config, r *Result) {
 	}
 	n := cfg.N(1500, 40000)
 	for i := 0; i < n; i++ {
-		src, _, _ := GenProgram(cfg.Rng, GenOpts{MaxStmts: 8, MaxDepth: 2, Funcs: true, Specials: true, Tests: true, Gfx: true, Reads: true, Empties: i%2 == 0})
+		src, _, _ := GenProgram(cfg.Rng, GenOpts{MaxStmts: 8, MaxDepth: 2, Funcs: true, Specials: true, Tests: true, Gfx: true, Reads: true, Empties: i%2 == 0, MoreBuiltins: i%3 == 0})
 		d := semCase(model, r, src, SemOpts{StopAt: -1, YieldBudget: 100000, Input: []string{"l1", "5"}}, true, "")
 		if strings.HasPrefix(d.Impl.ParseErr, "gopanic") {
 			// a parser crash is C03's concern; count it here without failing C02
